@@ -120,6 +120,91 @@ def _decide(t: ast.AST, env) -> Optional[bool]:
     return None
 
 
+def _canon_idx(S: Sem, e: ast.AST, at: int) -> str:
+    """index expression with conversions that keep the values (np.asarray, np.array, list, tuple) removed"""
+    r = S.resolve(e, at)
+    while isinstance(r, ast.Call) and call_name(r) in ("np.asarray", "np.array", "numpy.asarray", "numpy.array", "list", "tuple") and r.args:
+        r = r.args[0]
+    return norm(r)
+
+
+def _reindex_form(idx, S: Sem, f, e: ast.AST, at: int, depth: int = 3):
+    """('gather' | 'scatter' | None, base text, [(axis, index text)]) for an expression that re-indexes an array:
+    chained subscripts X[:, :, O][:, O], X[:, O[:, None], O[None, :]], X[:, r, c] with r, c = np.ix_(O, O), np.take(X, O, axis=a),
+    or a private helper that does one of these — or that fills a new array through an index store (a scatter)."""
+    r = S.resolve(e, at)
+    idxs: List[Tuple[int, str]] = []
+
+    def one_index(x: ast.AST) -> Optional[str]:
+        """the permutation behind an index expression, whatever broadcasting shape it is given"""
+        y = x
+        if isinstance(y, ast.Subscript) and isinstance(y.value, ast.Call) and call_name(y.value) in ("np.ix_", "numpy.ix_") and isinstance(y.slice, ast.Constant) \
+                and isinstance(y.slice.value, int) and y.slice.value < len(y.value.args):
+            y = y.value.args[y.slice.value]
+        elif isinstance(y, ast.Subscript) and isinstance(y.slice, ast.Tuple) and all(norm(z) in (":", "None", "np.newaxis") for z in y.slice.elts):
+            y = y.value
+        while isinstance(y, ast.Call) and call_name(y) in ("np.asarray", "np.array", "list", "tuple") and y.args:
+            y = y.args[0]
+        return norm(y)
+
+    cur = r
+    for _ in range(6):
+        if isinstance(cur, ast.Subscript):
+            sl = cur.slice
+            elts = sl.elts if isinstance(sl, ast.Tuple) else [sl]
+            if len(elts) == 1 and not isinstance(elts[0], ast.Slice) and norm(cur.value) == "self._XX_R":
+                break
+            idxs += [(i_, one_index(x)) for i_, x in enumerate(elts) if norm(x) != ":"]
+            cur = cur.value
+            continue
+        if isinstance(cur, ast.Call) and call_name(cur) in ("np.take", "numpy.take") and len(cur.args) >= 2:
+            ax = kwarg(cur, "axis", 2)
+            if ax is None or not isinstance(ax, ast.Constant):
+                return None, norm(cur), idxs
+            idxs.append((ax.value, one_index(cur.args[1])))
+            cur = cur.args[0]
+            continue
+        break
+    if idxs:
+        return "gather", norm(cur), idxs
+    # a private helper
+    if isinstance(cur, ast.Call) and depth > 0:
+        for g, c_, S_g in helper_calls(idx, S):
+            if norm(c_) == norm(e) or c_ is e or norm(c_) == norm(cur):
+                rets = [x for x in stmts(g.node) if isinstance(x, ast.Return) and x.value is not None]
+                if len(rets) != 1:
+                    return None, norm(cur), []
+                rv = rets[0].value
+                params = [p_ for p_ in g.params if p_ not in ("self", "cls")]
+                bind = {p_: a_ for p_, a_ in zip(params, c_.args)}
+                bind.update({k.arg: k.value for k in c_.keywords if k.arg})
+
+                def to_caller(txt_node: ast.AST) -> str:
+                    return norm(S._subst(txt_node, bind))
+                if isinstance(rv, ast.Name):
+                    ds = S_g.du.reaching(rv.id, S_g.cfg.node(rets[0]))
+                    made = ds[0].value if len(ds) == 1 else None
+                    stores = [x for x in stmts(g.node) if isinstance(x, ast.Assign) and isinstance(x.targets[0], ast.Subscript) and norm(x.targets[0].value) == rv.id]
+                    if isinstance(made, ast.Call) and call_name(made).split(".")[-1] in ("empty_like", "zeros_like", "empty", "zeros") and len(stores) == 1:
+                        S_g.inline_helpers = False
+                        t_ = stores[0].targets[0]
+                        elts = t_.slice.elts if isinstance(t_.slice, ast.Tuple) else [t_.slice]
+                        sc = []
+                        for i_, x in enumerate(elts):
+                            if norm(x) != ":":
+                                xr = S_g._subst(S_g.resolve(x, S_g.cfg.node(stores[0]), through_caller=False), bind)
+                                sc.append((i_, one_index(xr)))
+                        return "scatter", to_caller(stores[0].value), sc
+                kind, base, ix = _reindex_form(idx, S_g, g, rv, S_g.cfg.node(rets[0]), depth - 1)
+                if kind is not None:
+                    S_g2 = S_g
+                    base_c = norm(S._subst(ast.parse(base, mode="eval").body, bind))
+                    ix_c = [(a_, norm(S._subst(ast.parse(t_, mode="eval").body, bind))) for a_, t_ in ix]
+                    return kind, base_c, ix_c
+                return None, norm(cur), []
+    return None, norm(cur), []
+
+
 def run(ctx) -> None:
     idx = ctx.index
 
@@ -133,37 +218,52 @@ def run(ctx) -> None:
         if len(cst) != 1 or not isinstance(cst[0].value, ast.Subscript) or norm(cst[0].value.value) != "self.wannier_centers_cart":
             r1.violation(f, f.node, f"{q} does not permute wannier_centers_cart", stmt="centres")
             continue
-        I = norm(cst[0].value.slice)
         S = Sem(idx, f)
-        mats = []    # (function, stmt, [(axis, index text)], loop iter text)
-        for g, S_g in [(f, S)] + [(g_, s_) for g_, _, s_ in helper_calls(idx, S)]:
+        I = _canon_idx(S, cst[0].value.slice, S.cfg.node(cst[0]))
+        mats = []    # (function, stmt, kind, [(axis, index text)], covers every key)
+        XXR_ITERS = ("self._XX_R", "self._XX_R.keys()", "list(self._XX_R)", "list(self._XX_R.keys())")
+        for st_ in stmts(f.node):
+            if isinstance(st_, ast.Assign) and isinstance(st_.targets[0], ast.Subscript) and norm(st_.targets[0].value) == "self._XX_R":
+                keyv = norm(st_.targets[0].slice)
+                lp_ = enclosing(S.pm, st_, ast.For)
+                bases = {f"self._XX_R[{keyv}]"}
+                allkeys = False
+                if lp_ is not None and norm(lp_.iter) == "self._XX_R.items()" and isinstance(lp_.target, ast.Tuple) and norm(lp_.target.elts[0]) == keyv:
+                    allkeys = True
+                    bases.add(norm(lp_.target.elts[1]))
+                elif lp_ is not None and norm(lp_.iter) in XXR_ITERS and norm(lp_.target) == keyv:
+                    allkeys = True
+                kind, base, idxs = _reindex_form(idx, S, f, st_.value, S.cfg.node(st_))
+                mats.append((f, st_, kind, idxs, allkeys and base in bases))
+            elif isinstance(st_, ast.Assign) and norm(st_.targets[0]) == "self._XX_R" and isinstance(st_.value, ast.DictComp) and len(st_.value.generators) == 1:
+                ge = st_.value.generators[0]
+                allkeys = not ge.ifs and norm(ge.iter) == "self._XX_R.items()" and isinstance(ge.target, ast.Tuple) and len(ge.target.elts) == 2 \
+                    and norm(st_.value.key) == norm(ge.target.elts[0])
+                bases = {norm(ge.target.elts[1]), f"self._XX_R[{norm(ge.target.elts[0])}]"} if isinstance(ge.target, ast.Tuple) else set()
+                S.keep_names = S.keep_names | {n_.id for n_ in ast.walk(ge.target) if isinstance(n_, ast.Name)}
+                kind, base, idxs = _reindex_form(idx, S, f, st_.value.value, S.cfg.node(st_))
+                mats.append((f, st_, kind, idxs, allkeys and base in bases))
+        for g, _c, S_g in helper_calls(idx, S):
             for st_ in stmts(g.node):
                 if isinstance(st_, ast.Assign) and isinstance(st_.targets[0], ast.Subscript) and norm(st_.targets[0].value) == "self._XX_R":
                     keyv = norm(st_.targets[0].slice)
-                    e_ = S_g.resolve(st_.value, S_g.cfg.node(st_))
-                    idxs = []
-                    while isinstance(e_, ast.Subscript):
-                        sl = e_.slice
-                        elts = sl.elts if isinstance(sl, ast.Tuple) else [sl]
-                        if not isinstance(sl, ast.Tuple) and norm(sl) == keyv:
-                            break
-                        idxs += [(i_, norm(x)) for i_, x in enumerate(elts) if norm(x) != ":"]
-                        e_ = e_.value
-                    base_ok = norm(e_) in (f"self._XX_R[{keyv}]",)
                     lp_ = enclosing(S_g.pm, st_, ast.For)
                     allkeys = lp_ is not None and ((norm(lp_.iter) == "self._XX_R.items()" and isinstance(lp_.target, ast.Tuple) and norm(lp_.target.elts[0]) == keyv)
-                                                   or (norm(lp_.iter) in ("self._XX_R", "self._XX_R.keys()", "list(self._XX_R)", "list(self._XX_R.keys())") and norm(lp_.target) == keyv))
-                    mats.append((g, st_, idxs, base_ok and allkeys))
-        okm = len(mats) == 1 and sorted(mats[0][2]) == [(1, I), (2, I)] and mats[0][3]
+                                                   or (norm(lp_.iter) in XXR_ITERS and norm(lp_.target) == keyv))
+                    kind, base, idxs = _reindex_form(idx, S_g, g, st_.value, S_g.cfg.node(st_))
+                    mats.append((g, st_, kind, idxs, allkeys and base == f"self._XX_R[{keyv}]"))
+        okm = len(mats) == 1 and mats[0][2] == "gather" and sorted(mats[0][3]) == [(1, I), (2, I)] and mats[0][4]
+        how = "nothing" if not mats else (f"a {mats[0][2]} with {mats[0][3]}" if mats[0][2] else "a construction the checker cannot read as an index permutation")
         r1.check(okm, f"every _XX_R[key] is re-indexed with `{I}` on both Wannier axes", mats[0][0] if mats else f, mats[0][1] if mats else f.node,
-                 f"{q}: the real-space matrices are re-indexed with {mats[0][2] if mats else None} while the centres use `{I}`"
-                 f"{'' if (mats and mats[0][3]) else ' (or not for every key of self._XX_R)'}: rows, columns and centres end up in different orders")
+                 f"{q}: the real-space matrices are re-indexed by {how} while the centres are gathered with `{I}`"
+                 f"{'' if (mats and mats[0][4]) else ' (or not for every key of self._XX_R)'}"
+                 f"{': a scatter applies the INVERSE permutation' if mats and mats[0][2] == 'scatter' else ''}: rows, columns and centres end up in different orders")
         rc = [c for c in method_calls(f.node, "reorder") if norm(c.func.value) == "self.rvec"]
         okr = False
         if len(rc) == 1:
             a0 = kwarg(rc[0], "order_left", 0)
             a1 = kwarg(rc[0], "order_right", 1)
-            okr = a0 is not None and norm(a0) == I and (a1 is None or norm(a1) == I)
+            okr = a0 is not None and _canon_idx(S, a0, S.du.node_of_expr(rc[0])) == I and (a1 is None or _canon_idx(S, a1, S.du.node_of_expr(rc[0])) == I)
         r1.check(okr, f"rvec.reorder({I}) permutes the centre shifts with the same index", f, rc[0] if rc else f.node,
                  f"{q}: the R-vector shifts are re-ordered with `{norm1(rc[0]) if rc else 'nothing'}` but centres/matrices with `{I}`: "
                  f"derivatives use R + τj − τi of the wrong functions")
@@ -175,7 +275,8 @@ def run(ctx) -> None:
                  path=cfg.describe_path(cfg.path_avoiding(snode, cfg.exit, clears) or []))
         if q.endswith(".reorder"):
             wn = [s for s in stmts(f.node) if isinstance(s, ast.Assign) and norm(s.targets[0]) == "self.wannier_names"]
-            r1.check(len(wn) == 1 and norm(wn[0].value) == f"self.wannier_names[{I}]", "optional wannier_names follow the same order", f,
+            r1.check(len(wn) == 1 and isinstance(wn[0].value, ast.Subscript) and norm(wn[0].value.value) == "self.wannier_names"
+                     and _canon_idx(S, wn[0].value.slice, S.cfg.node(wn[0])) == I, "optional wannier_names follow the same order", f,
                      wn[0] if wn else f.node, f"{q}: wannier_names are not permuted with `{I}`")
     ds = idx.function(SR, "System_R.double_spin")
     r1.instance(ds.short)
@@ -239,14 +340,34 @@ def run(ctx) -> None:
              f"cached properties {missing} depend on the shifts but are not cleared by Rvectors.clear_cached: after a reorder they keep "
              f"the old order", stmt=f"missing {missing}")
     sc = idx.function(SR, "System_R.clear_cached_wcc")
-    tt = norm(sc.node).replace(" ", "")
-    r3.check("clear_cached(self,['wannier_centers_red'])" in tt and "self.rvec.clear_cached()" in tt, "clear_cached_wcc clears the reduced centres and the rvec caches",
+    SCS = Sem(idx, sc)
+    cl1 = [c_ for c_ in ast.walk(sc.node) if isinstance(c_, ast.Call) and call_name(c_) == "clear_cached" and len(c_.args) == 2 and norm(c_.args[0]) == "self"]
+    names_cleared: List[str] = []
+    for c_ in cl1:
+        l_ = SCS.resolve(c_.args[1], SCS.du.node_of_expr(c_))
+        if isinstance(l_, (ast.List, ast.Tuple, ast.Set)):
+            names_cleared += [e_.value for e_ in l_.elts if isinstance(e_, ast.Constant)]
+    cl2 = [c_ for c_ in ast.walk(sc.node) if isinstance(c_, ast.Call) and norm(c_.func) == "self.rvec.clear_cached" and not c_.args]
+    r3.check("wannier_centers_red" in names_cleared and bool(cl2), "clear_cached_wcc clears the reduced centres and the rvec caches",
              sc, sc.node, "System_R.clear_cached_wcc no longer clears wannier_centers_red / rvec caches", stmt="clear_cached_wcc")
 
 
 from ..selftest import V  # noqa: E402
 
 SELFTEST = [
+    V("matrices scattered instead of gathered (seeded C05-m3)", SR,
+      "        for key, val in self._XX_R.items():\n            self._XX_R[key] = val[:, :, new_wann_indices][:, new_wann_indices, :]\n",
+      "        for key, val in self._XX_R.items():\n            new = np.empty_like(val)\n            new[:, new_wann_indices[:, None], new_wann_indices[None, :]] = val\n            self._XX_R[key] = new\n",
+      "fire", "R05.1"),
+    V("neutral: matrices gathered through np.ix_", SR,
+      "        for key, val in self._XX_R.items():\n            self._XX_R[key] = val[:, :, new_wann_indices][:, new_wann_indices, :]\n",
+      "        rows, cols = np.ix_(new_wann_indices, new_wann_indices)\n        for key, val in self._XX_R.items():\n            self._XX_R[key] = val[:, rows, cols]\n",
+      "silent"),
+    V("neutral: matrices re-indexed by a dict comprehension and np.take", SR,
+      "        for key, val in self._XX_R.items():\n            self._XX_R[key] = val[:, :, new_wann_indices][:, new_wann_indices, :]\n",
+      "        self._XX_R = {key: np.take(np.take(val, new_wann_indices, axis=1), new_wann_indices, axis=2) for key, val in self._XX_R.items()}\n",
+      "silent"),
+    V("clear_cached_wcc forgets the R-vector caches", SR, "            self.rvec.clear_cached()\n", "            pass\n", "fire", "R05.3"),
     V("reorder: cache invalidation dropped (seeded C05-m1)", SR,
       "            self.wannier_names = self.wannier_names[new_wann_indices]\n        self.clear_cached_wcc()\n        self.clear_cached_R()\n",
       "            self.wannier_names = self.wannier_names[new_wann_indices]\n", "fire", "R05.1"),
